@@ -44,6 +44,8 @@ fn main() {
             println!("2000 forks + thread: {:?} per fork", t.elapsed() / 2000);
             0
         }
+        "observe" if args.len() >= 4 => driver::observe(&args[2], args[3].parse().unwrap_or(0)),
+        "observe-worker" if args.len() >= 6 => driver::observe_worker(&args[2], &args[3], args[4].parse().unwrap_or(0), args[5].parse().unwrap_or(1)),
         "dump" if args.len() >= 4 => driver::dump(&args[2], args[3].parse().unwrap_or(0)),
         _ => usage(),
     };
